@@ -53,7 +53,7 @@ type c02Reg struct {
 	rid      int
 	// the parameters of the most recent duplicate delivery that differ from the registered ones (-1: none)
 	dupPID int32
-	ident    string
+	ident  string
 	// ground truth
 	tracked, valid, used bool
 	time                 int64
@@ -208,6 +208,10 @@ func (w *c02World) apply(kind byte, ph, sec int, tr pb.TransportType, prefixID i
 	}
 	// the object that is delivered carries the parameters of THIS delivery; a duplicate must neither
 	// replace the tracked object nor its parameters (the ground truth keeps those of the first delivery)
+	if !r.tracked && (kind == 'r' || kind == 't') {
+		// a new lifetime: this delivery's object is the one that gets tracked, with its parameters
+		r.prefixID, r.ppMode, r.dupPID = prefixID, ppMode, -1
+	}
 	req := *r
 	req.prefixID, req.ppMode = prefixID, ppMode
 	d := w.mkDecoy(&req)
@@ -547,9 +551,12 @@ func c02RunWorld(out *vlib.Out, r *vlib.Rand, nOffers int) {
 			// built for a station key this station does not hold
 			o.kind = "unknown-station-key"
 			o.data = append(append([]byte(nil), w.flightK(reg.sec, reg.tr, pid, flush, nkeys)...), early...)
-			if reg.tr == pb.TransportType_Min {
-				// the min flight does not depend on the station key: it is the genuine flight
+			if reg.tr != pb.TransportType_Prefix {
+				// min and obfs4 flights do not depend on the station key: this is the genuine flight
 				o.genuine = true
+				if reg.tr == pb.TransportType_Obfs4 && len(early) > 0 {
+					o.kind = "obfs4-trailing-data"
+				}
 			}
 		case k < 3:
 			o.kind, o.data, o.genuine = "genuine", f, gen
@@ -644,7 +651,7 @@ func TestVerifC02(t *testing.T) {
 	// corpus: a prefix registration admitted with absent / typed-nil parameters, then flights built
 	// with every prefix id for its secret; and an unvalidated + an expired registration
 	{
-		w := newC02World()
+		w := newC02World(3)
 		w.apply('r', 0, 0, pb.TransportType_Prefix, 0, 1, 0)
 		w.apply('r', 0, 1, pb.TransportType_Prefix, 0, 2, 0)
 		w.apply('r', 0, 2, pb.TransportType_Prefix, 3, 0, 0)
@@ -680,7 +687,7 @@ func TestVerifC02(t *testing.T) {
 	// corpus: a registration that carried a connection, replayed after its 6 h lifetime; an unused one
 	// replayed after 10 min; a used one replayed inside its lifetime (still accepted)
 	{
-		w := newC02World()
+		w := newC02World(1)
 		w.apply('r', 0, 0, pb.TransportType_Min, 0, 0, 0)
 		w.apply('r', 0, 1, pb.TransportType_Prefix, 4, 0, 0)
 		w.apply('r', 1, 2, pb.TransportType_Obfs4, 0, 0, 0)
@@ -698,6 +705,48 @@ func TestVerifC02(t *testing.T) {
 		replay()
 		w.apply('s', 0, 0, 0, 0, 0, 25230) // 7 h: everything is gone
 		replay()
+	}
+	// corpus: cross-transport near misses, several station keys, duplicates with other parameters
+	{
+		w := newC02World(3)
+		w.apply('r', 0, 0, pb.TransportType_Min, 0, 0, 0)     // rid 1: plain min registration
+		w.apply('r', 0, 1, pb.TransportType_Min, 4, 4, 0)     // rid 2: min registration carrying prefix parameters (id 4)
+		w.apply('r', 0, 2, pb.TransportType_Obfs4, 0, 4, 0)   // rid 3: obfs4 registration carrying prefix parameters (id 0)
+		w.apply('r', 0, 3, pb.TransportType_Prefix, 5, 0, 0)  // rid 4: prefix registration, id 5
+		w.apply('t', 0, 4, pb.TransportType_Min, 0, 4, 0)     // rid 5: tracked only
+		w.apply('r', 0, 3, pb.TransportType_Prefix, 7, 0, 60) // duplicate of rid 4 naming prefix 7
+		w.apply('t', 0, 3, pb.TransportType_Prefix, 0, 1, 60) // duplicate of rid 4 without parameters
+		for _, reg := range w.regs {
+			for kj := 0; kj < 3; kj++ {
+				for _, pid := range []int32{0, 4, 5} {
+					// the identifier of every registration, wrapped as a prefix tag for every key
+					w.offer(out, c02Offer{kind: "cross-transport-crafted", ph: reg.ph, tr: pb.TransportType_Prefix, owner: reg, pid: pid,
+						genuine: reg.tr == pb.TransportType_Prefix, data: w.crafted(w.identBytes(reg), pid, kj)})
+				}
+			}
+			// the bare identifier offered to min and to prefix, on its own and on another phantom
+			id := w.identBytes(reg)
+			w.offer(out, c02Offer{kind: "raw-identifier-to-min", ph: reg.ph, tr: pb.TransportType_Min, owner: reg, rawIdent: true, data: append(append([]byte(nil), id...), 1, 2, 3)})
+			w.offer(out, c02Offer{kind: "raw-identifier-to-min", ph: 1, tr: pb.TransportType_Min, owner: reg, rawIdent: true, data: id})
+			w.offer(out, c02Offer{kind: "raw-identifier-to-prefix", ph: reg.ph, tr: pb.TransportType_Prefix, owner: reg, data: append(append([]byte(nil), id...), make([]byte, 64)...)})
+		}
+		{
+			reg := w.regs[3]
+			for kj := 0; kj < 4; kj++ { // key 3 is not held by the station
+				for _, pid := range []int32{5, 7, 0} {
+					kind := "genuine"
+					switch {
+					case kj == 3:
+						kind = "unknown-station-key"
+					case pid == 7:
+						kind = "duplicate-other-prefix"
+					case pid == 0:
+						kind = "cross-prefix"
+					}
+					w.offer(out, c02Offer{kind: kind, ph: reg.ph, tr: reg.tr, owner: reg, pid: pid, genuine: kj < 3, data: w.flightK(reg.sec, reg.tr, pid, 0, kj)})
+				}
+			}
+		}
 	}
 	worlds := vlib.Budget(150, 3000)
 	for i := 0; i < worlds; i++ {
